@@ -166,7 +166,8 @@ type Guard struct {
 // an If in a dominator D whose successor S on one edge dominates b, where S is entered only through D.
 func guardsOf(b *ssa.BasicBlock) []Guard {
 	var out []Guard
-	for d := b.Idom(); d != nil; d = d.Idom() {
+	ld := liveDomOf(b.Parent())
+	for d := ld.idom[b]; d != nil; d = ld.idom[d] {
 		if len(d.Instrs) == 0 {
 			continue
 		}
@@ -175,12 +176,145 @@ func guardsOf(b *ssa.BasicBlock) []Guard {
 			continue
 		}
 		for k, s := range d.Succs {
-			if len(s.Preds) == 1 && (s == b || s.Dominates(b)) {
+			if len(d.Succs) == 2 && d.Succs[0] == d.Succs[1] {
+				continue
+			}
+			if ld.livePreds(s) == 1 && (s == b || ld.dominates(s, b)) {
 				out = append([]Guard{{If: ifi, Cond: ifi.Cond, Branch: k == 0}}, out...)
 			}
 		}
 	}
 	return out
+}
+
+// liveDom: dominators over the control-flow graph without the edges that leave a block containing a call that never
+// returns (`if err != nil { fatal(err) }; rest` — rest is entered only when err == nil although it is a join in the
+// graph the compiler front end builds). Without such calls it coincides with the ordinary dominator tree.
+type liveDom struct {
+	idom map[*ssa.BasicBlock]*ssa.BasicBlock
+	dead map[*ssa.BasicBlock]bool
+}
+
+var liveDomCache = map[*ssa.Function]*liveDom{}
+
+func (ld *liveDom) livePreds(b *ssa.BasicBlock) int {
+	n := 0
+	for _, p := range b.Preds {
+		if !ld.dead[p] {
+			n++
+		}
+	}
+	return n
+}
+
+func (ld *liveDom) dominates(a, b *ssa.BasicBlock) bool {
+	for x := b; x != nil; x = ld.idom[x] {
+		if x == a {
+			return true
+		}
+	}
+	return false
+}
+
+func liveDomOf(fn *ssa.Function) *liveDom {
+	if ld, ok := liveDomCache[fn]; ok {
+		return ld
+	}
+	ld := &liveDom{idom: map[*ssa.BasicBlock]*ssa.BasicBlock{}, dead: map[*ssa.BasicBlock]bool{}}
+	liveDomCache[fn] = ld
+	anyDead := false
+	for _, b := range fn.Blocks {
+		if deadEnd(b) {
+			ld.dead[b] = true
+			anyDead = true
+		}
+	}
+	if !anyDead {
+		for _, b := range fn.Blocks {
+			ld.idom[b] = b.Idom()
+		}
+		return ld
+	}
+	// reverse postorder over live edges
+	var order []*ssa.BasicBlock
+	seen := map[*ssa.BasicBlock]bool{}
+	var dfs func(b *ssa.BasicBlock)
+	dfs = func(b *ssa.BasicBlock) {
+		seen[b] = true
+		if !ld.dead[b] {
+			for _, s := range b.Succs {
+				if !seen[s] {
+					dfs(s)
+				}
+			}
+		}
+		order = append(order, b)
+	}
+	if len(fn.Blocks) == 0 {
+		return ld
+	}
+	dfs(fn.Blocks[0])
+	if fn.Recover != nil && !seen[fn.Recover] {
+		dfs(fn.Recover)
+	}
+	for i, j := 0, len(order)-1; i < j; i, j = i+1, j-1 {
+		order[i], order[j] = order[j], order[i]
+	}
+	num := map[*ssa.BasicBlock]int{}
+	for i, b := range order {
+		num[b] = i
+	}
+	entry := fn.Blocks[0]
+	idom := map[*ssa.BasicBlock]*ssa.BasicBlock{entry: entry}
+	intersect := func(a, b *ssa.BasicBlock) *ssa.BasicBlock {
+		for a != b {
+			for num[a] > num[b] {
+				a = idom[a]
+			}
+			for num[b] > num[a] {
+				b = idom[b]
+			}
+		}
+		return a
+	}
+	for changed := true; changed; {
+		changed = false
+		for _, b := range order {
+			if b == entry {
+				continue
+			}
+			var nd *ssa.BasicBlock
+			for _, p := range b.Preds {
+				if ld.dead[p] || idom[p] == nil {
+					continue
+				}
+				if _, ok := num[p]; !ok {
+					continue
+				}
+				if nd == nil {
+					nd = p
+				} else {
+					nd = intersect(p, nd)
+				}
+			}
+			if nd != nil && idom[b] != nd {
+				idom[b] = nd
+				changed = true
+			}
+		}
+	}
+	for b, d := range idom {
+		if b != entry {
+			ld.idom[b] = d
+		}
+	}
+	// blocks unreachable over live edges keep the ordinary dominator
+	for _, b := range fn.Blocks {
+		if _, ok := ld.idom[b]; !ok && b != entry {
+			ld.idom[b] = b.Idom()
+		}
+	}
+	return ld
 }
 
 // stripNot removes leading `!` unary ops, flipping the polarity.
@@ -193,6 +327,71 @@ func stripNot(v ssa.Value, pol bool) (ssa.Value, bool) {
 		v = u.X
 		pol = !pol
 	}
+}
+
+// stripNotThroughPredicates: as stripNot, and a call of a predicate method of the module (`s.healthCheckEnabled()` for
+// `!s.config.HealthCheck.Disabled`) is replaced by what it returns (a value of the callee: its origin is in the callee's
+// terms).
+func stripNotThroughPredicates(v ssa.Value, pol bool) (ssa.Value, bool) {
+	for depth := 0; depth < 6; depth++ {
+		v, pol = stripNot(v, pol)
+		call, isCall := v.(*ssa.Call)
+		if !isCall {
+			return v, pol
+		}
+		r := predicateBody(call)
+		if r == nil {
+			return v, pol
+		}
+		v = r
+	}
+	return v, pol
+}
+
+// predicateBody: the call is a plain call of a module function whose single block only loads, selects fields, negates
+// and compares (no call but an atomic Load, no store, no branch) and returns one boolean: that returned value.
+func predicateBody(call *ssa.Call) ssa.Value {
+	cc := call.Common()
+	f := cc.StaticCallee()
+	if f == nil || cc.IsInvoke() || len(f.Blocks) != 1 || len(f.FreeVars) > 0 || f.Pkg == nil || !strings.HasPrefix(f.Pkg.Pkg.Path(), modPath) {
+		return nil
+	}
+	res := f.Signature.Results()
+	if res.Len() != 1 {
+		return nil
+	}
+	if bt, ok := res.At(0).Type().Underlying().(*types.Basic); !ok || bt.Kind() != types.Bool {
+		return nil
+	}
+	var ret *ssa.Return
+	for _, in := range f.Blocks[0].Instrs {
+		switch x := in.(type) {
+		case *ssa.FieldAddr, *ssa.Field, *ssa.DebugRef, *ssa.ChangeType, *ssa.Convert:
+		case *ssa.UnOp:
+			if x.Op != token.MUL && x.Op != token.NOT {
+				return nil
+			}
+		case *ssa.BinOp:
+			switch x.Op {
+			case token.EQL, token.NEQ, token.LSS, token.LEQ, token.GTR, token.GEQ:
+			default:
+				return nil
+			}
+		case *ssa.Call:
+			n := calleeName(x.Common())
+			if !(strings.Contains(n, "sync/atomic.") && strings.HasSuffix(n, ".Load")) {
+				return nil
+			}
+		case *ssa.Return:
+			ret = x
+		default:
+			return nil
+		}
+	}
+	if ret == nil || len(ret.Results) != 1 {
+		return nil
+	}
+	return ret.Results[0]
 }
 
 // guardedBy reports whether block b executes only when pred(cond) holds with the given polarity:
@@ -272,6 +471,9 @@ func existsPathAvoiding(from ssa.Instruction, hit func(ssa.Instruction) bool, pa
 			case *ssa.Return:
 				return true
 			case *ssa.Panic:
+				return panicCounts
+			}
+			if callsNoReturn(in) {
 				return panicCounts
 			}
 		}
@@ -362,6 +564,10 @@ func pathEvents(fn *ssa.Function, classify eventClassifier, depth int) (seqs []s
 					k(acc)
 					return
 				case *ssa.Panic:
+					k(append(append([]string{}, acc...), "!panic"))
+					return
+				}
+				if callsNoReturn(in) {
 					k(append(append([]string{}, acc...), "!panic"))
 					return
 				}
@@ -705,4 +911,189 @@ func flagWrite(in ssa.Instruction) (*types.Var, ssa.Value, ssa.Value) {
 		}
 	}
 	return nil, nil, nil
+}
+
+// ---------------------------------------------------------------------------------------------
+// functions that never return normally (a `fatal(err, msg)` helper that logs and panics)
+
+var noReturn = map[*ssa.Function]bool{}
+
+func noReturnName(n string) bool {
+	return n == "os.Exit" || n == "log.Fatal" || n == "log.Fatalf" || n == "log.Fatalln" || n == "log.Panic" || n == "log.Panicf" || n == "runtime.Goexit"
+}
+
+// callsNoReturn: the instruction is a plain call (not go/defer) of a function that never returns normally.
+func callsNoReturn(in ssa.Instruction) bool {
+	call, ok := in.(*ssa.Call)
+	if !ok {
+		return false
+	}
+	cc := call.Common()
+	if cc.IsInvoke() {
+		return false
+	}
+	if f := cc.StaticCallee(); f != nil {
+		return noReturn[f] || noReturnName(calleeName(cc))
+	}
+	return false
+}
+
+// isPanicLike: execution does not continue past this instruction in the function — a panic, or a call of a helper
+// that never returns.
+func isPanicLike(in ssa.Instruction) bool {
+	if _, ok := in.(*ssa.Panic); ok {
+		return true
+	}
+	return callsNoReturn(in)
+}
+
+// deadEnd: control that enters the block never leaves it through its successors.
+func deadEnd(b *ssa.BasicBlock) bool {
+	for _, in := range b.Instrs {
+		if callsNoReturn(in) {
+			return true
+		}
+	}
+	return false
+}
+
+// computeNoReturn: least fixpoint over the module's functions — a function never returns when no Return instruction is
+// reachable from its entry along edges that do not pass a panic or a call of a function that never returns.
+func computeNoReturn(fns []*ssa.Function) {
+	noReturn = map[*ssa.Function]bool{}
+	for changed := true; changed; {
+		changed = false
+		for _, fn := range fns {
+			if noReturn[fn] || len(fn.Blocks) == 0 || fn.Recover != nil {
+				continue
+			}
+			reach := false
+			seen := map[*ssa.BasicBlock]bool{}
+			var walk func(b *ssa.BasicBlock)
+			walk = func(b *ssa.BasicBlock) {
+				if seen[b] || reach {
+					return
+				}
+				seen[b] = true
+				for _, in := range b.Instrs {
+					if callsNoReturn(in) {
+						return
+					}
+					switch in.(type) {
+					case *ssa.Return:
+						reach = true
+						return
+					case *ssa.Panic:
+						return
+					}
+				}
+				for _, s := range b.Succs {
+					walk(s)
+				}
+			}
+			walk(fn.Blocks[0])
+			if !reach {
+				noReturn[fn] = true
+				changed = true
+			}
+		}
+	}
+}
+
+// ---------------------------------------------------------------------------------------------
+// facts behind predicate methods
+
+type condFact struct {
+	V   ssa.Value
+	Pol bool
+}
+
+// expandFact: what is known when v has truth value pol, looking through negations and through predicate functions of
+// the module: a single-block predicate denotes what it returns; `return a || b` known false makes a and b false;
+// `return a && b` known true makes a and b true. Values of a callee are in the callee's terms.
+func expandFact(v ssa.Value, pol bool, depth int) []condFact {
+	v, pol = stripNot(v, pol)
+	out := []condFact{{v, pol}}
+	call, isCall := v.(*ssa.Call)
+	if !isCall || depth == 0 {
+		return out
+	}
+	if r := predicateBody(call); r != nil {
+		return append(out, expandFact(r, pol, depth-1)...)
+	}
+	cc := call.Common()
+	f := cc.StaticCallee()
+	if f == nil || cc.IsInvoke() || len(f.Blocks) == 0 || len(f.Blocks) > 6 || f.Pkg == nil || !strings.HasPrefix(f.Pkg.Pkg.Path(), modPath) || f.Signature.Results().Len() != 1 {
+		return out
+	}
+	if bt, ok := f.Signature.Results().At(0).Type().Underlying().(*types.Basic); !ok || bt.Kind() != types.Bool {
+		return out
+	}
+	// pure: nothing but loads, selections, comparisons, negations, atomic loads, jumps, ifs, phis and one return
+	var ret *ssa.Return
+	for _, b := range f.Blocks {
+		for _, in := range b.Instrs {
+			switch x := in.(type) {
+			case *ssa.FieldAddr, *ssa.Field, *ssa.DebugRef, *ssa.ChangeType, *ssa.Convert, *ssa.BinOp, *ssa.If, *ssa.Jump, *ssa.Phi:
+			case *ssa.UnOp:
+				if x.Op != token.MUL && x.Op != token.NOT {
+					return out
+				}
+			case *ssa.Call:
+				n := calleeName(x.Common())
+				if !(strings.Contains(n, "sync/atomic.") && strings.HasSuffix(n, ".Load")) {
+					return out
+				}
+			case *ssa.Return:
+				if ret != nil {
+					return out
+				}
+				ret = x
+			default:
+				return out
+			}
+		}
+	}
+	if ret == nil || len(ret.Results) != 1 {
+		return out
+	}
+	phi, isPhi := ret.Results[0].(*ssa.Phi)
+	if !isPhi {
+		return append(out, expandFact(ret.Results[0], pol, depth-1)...)
+	}
+	// short-circuit form: constant edges carry !pol-absorbing constants (true for ||, false for &&)
+	for k, e := range phi.Edges {
+		if k >= len(phi.Block().Preds) {
+			return out
+		}
+		pred := phi.Block().Preds[k]
+		if cst, isC := e.(*ssa.Const); isC && cst.Value != nil {
+			cv := cst.Value.String() == "true"
+			if cv == pol {
+				return out // this edge alone would give the known result: nothing follows for the others
+			}
+			// the edge was NOT taken: the branch decision that leads into it went the other way
+			ifi, isIf := pred.Instrs[len(pred.Instrs)-1].(*ssa.If)
+			if !isIf {
+				return out
+			}
+			taken := pred.Succs[0] == phi.Block()
+			out = append(out, expandFact(ifi.Cond, !taken, depth-1)...)
+			continue
+		}
+		out = append(out, expandFact(e, pol, depth-1)...)
+	}
+	return out
+}
+
+// guardedByDeep: as guardedBy, looking through predicate methods of the module.
+func guardedByDeep(b *ssa.BasicBlock, polarity bool, pred func(ssa.Value) bool) bool {
+	for _, g := range guardsOf(b) {
+		for _, f := range expandFact(g.Cond, g.Branch, 3) {
+			if f.Pol == polarity && pred(f.V) {
+				return true
+			}
+		}
+	}
+	return false
 }
